@@ -1,4 +1,5 @@
 import Bxh.Model.Chain
+import Bxh.Proofs.ChainRollback
 /-!
 # C09 — the stored chain is hash-linked and every index agrees with the executed blocks
 Theorems about `persist` and the getters of `Bxh.Chain` (model of `PersistExecutionResult`,
@@ -71,5 +72,73 @@ theorem C09_persist_total (n : Node) (txs : List String) (ctr : KV String Nat) (
   simp [hc.1]
 
 example : Consistent ({} : Node) := by simp [Consistent]
+
+/-- **after a rollback nothing above the target is found by height**: `RollbackBlockChain(t)` on a node whose blockfile is
+as long as its chain removes, for every height above `t` up to the old head, the block (both modes), the height → hash
+entry and the transaction-count entry, and the chain meta names height `t` -/
+theorem C09_rollback_clears_above_target (n n' : Node) (t : Nat) (hb : n.blocks = n.cmeta.1) (ht : t < n.cmeta.1)
+    (h : chainRollback n t = .ok n') :
+    n'.cmeta.1 = t ∧ ∀ j, t < j → j ≤ n.cmeta.1 →
+      getBlock n' j false = none ∧ getBlock n' j true = none ∧ getBlockHash n' j = none ∧ getTxCount n' j = none := by
+  unfold chainRollback at h
+  have h1 : ¬ n.cmeta.1 < t := by omega
+  have h2 : ¬ n.cmeta.1 = t := by omega
+  simp only [h1, h2, if_false] at h
+  split at h
+  · cases h
+  · rename_i n1 cnt hl
+    obtain ⟨s1, s2, _, s4, _⟩ := loop_spec t _ _ _ n n1 cnt hl rfl (by omega) hb
+    obtain ⟨l1, l2, _⟩ := s4 ht
+    have key : ∀ (m : Node), m.tbl = n1.tbl → m.idx.heightIdx = n1.idx.heightIdx → m.idx.txSet = n1.idx.txSet →
+        ∀ j, t < j → j ≤ n.cmeta.1 →
+        getBlock m j false = none ∧ getBlock m j true = none ∧ getBlockHash m j = none ∧ getTxCount m j = none := by
+      intro m e1 e2 e3 j hj1 hj2
+      have hbod : m.tbl.bodies[j - 1]? = none := by
+        rw [e1]; exact List.getElem?_eq_none (by omega)
+      have hts : KV.get m.idx.txSet j = none := by rw [e3, s2 j]; simp [hj1, hj2]
+      have hhi : KV.get m.idx.heightIdx j = none := by rw [e2, s1 j]; simp [hj1, hj2]
+      have hj0 : ¬ j = 0 := by omega
+      refine ⟨?_, ?_, hhi, ?_⟩
+      · simp [getBlock, hj0, hbod]
+      · simp [getBlock, hj0, hbod]
+      · simp [getTxCount, hts]
+    split at h
+    · injection h with h
+      subst h
+      rename_i ht0
+      exact ⟨ht0.symm, key _ rfl rfl rfl⟩
+    · split at h
+      · cases h
+      · injection h with h
+        subst h
+        exact ⟨rfl, key _ rfl rfl rfl⟩
+
+/-- the same through `Ledger.Rollback` (state store first, then the chain) -/
+theorem C09_ledger_rollback_clears_above_target (n n' : Node) (t : Nat) (hb : n.blocks = n.cmeta.1) (ht : t < n.cmeta.1)
+    (h : rollback n t = .ok n') :
+    n'.cmeta.1 = t ∧ ∀ j, t < j → j ≤ n.cmeta.1 →
+      getBlock n' j false = none ∧ getBlock n' j true = none ∧ getBlockHash n' j = none ∧ getTxCount n' j = none := by
+  unfold rollback at h
+  split at h
+  · cases h
+  · cases h
+  · cases h
+  · rename_i st' _
+    exact C09_rollback_clears_above_target { n with st := st' } n' t hb ht h
+
+-- non-vacuity: a node with two blocks rolled back to height 1
+section Example
+def exB1 : Blk := { height := 1, hash := "B1", parent := "zero", txs := ["t1"], counter := [] }
+def exB2 : Blk := { height := 2, hash := "B2", parent := "B1", txs := ["t2", "t3"], counter := [] }
+def exN : Node :=
+  { idx := { txSet := [(2, ["t2", "t3"]), (1, ["t1"])], hashIdx := [("B2", 2), ("B1", 1)], heightIdx := [(2, "B2"), (1, "B1")],
+             txMeta := [("t3", (2, "B2", 1)), ("t2", (2, "B2", 0)), ("t1", (1, "B1", 0))], metaDB := some (2, "B2", 0) },
+    tbl := { hashes := [exB1, exB2], bodies := [exB1, exB2], txs := [exB1, exB2], rcpts := [exB1, exB2], inter := [exB1, exB2] },
+    blocks := 2, cmeta := (2, "B2", 0) }
+
+example : exN.blocks = exN.cmeta.1 ∧ 1 < exN.cmeta.1 ∧ (∃ n', chainRollback exN 1 = .ok n' ∧ getBlock n' 1 true = some exB1 ∧
+    getByHash n' "B2" = none ∧ getTxMeta n' "t2" = none) := by
+  refine ⟨by decide, by decide, _, rfl, ?_, ?_, ?_⟩ <;> decide
+end Example
 
 end Bxh.Props.C09
